@@ -840,6 +840,11 @@ class MemorizedFunc(Logger):
         """
         call_id = (self.func_id, self._get_args_id(*args, **kwargs))
 
+        # The result is about to be stored next to the recorded function
+        # code: make sure that this code is the one of this function (and
+        # drop what other code computed) or it would later be served for it.
+        self._check_previous_func_code(stacklevel=3)
+
         # Return the output and the metadata
         return self._call(call_id, args, kwargs)
 
